@@ -283,3 +283,47 @@ func (m *Map) LoadAndDelete(k any) (any, bool) {
 	return m.m.LoadAndDelete(k)
 }
 func (m *Map) Range(f func(k, v any) bool) { vsched.Point("map.range"); m.m.Range(f) }
+
+// Pool mirrors sync.Pool (no per-P caches: a plain LIFO, which is one of the behaviours sync.Pool allows).
+type Pool struct {
+	New   func() any
+	items []any
+	real  sync.Mutex
+}
+
+func (p *Pool) Get() any {
+	vsched.Point("pool.get")
+	p.real.Lock()
+	defer p.real.Unlock()
+	if n := len(p.items); n > 0 {
+		x := p.items[n-1]
+		p.items = p.items[:n-1]
+		return x
+	}
+	if p.New != nil {
+		return p.New()
+	}
+	return nil
+}
+
+func (p *Pool) Put(x any) {
+	vsched.Point("pool.put")
+	p.real.Lock()
+	p.items = append(p.items, x)
+	p.real.Unlock()
+}
+
+// OnceFunc / OnceValue mirror the Go 1.21 helpers on top of Once.
+func OnceFunc(f func()) func() {
+	var o Once
+	return func() { o.Do(f) }
+}
+
+func OnceValue[T any](f func() T) func() T {
+	var o Once
+	var v T
+	return func() T {
+		o.Do(func() { v = f() })
+		return v
+	}
+}
